@@ -21,7 +21,7 @@ def named(name):
 
 
 def models(text, extra_facts=""):
-    ctl = Control(["0", "--warn=none"])
+    ctl = Control(["0", "--warn=none", "--opt-mode=enum,1000000000"])  # every answer set with its cost, not only optima
     ctl.add("base", [], text + "\n" + extra_facts)
     ctl.ground([("base", [])])
     ms = []
